@@ -581,6 +581,62 @@ def finalizers_@I@(v):
     inside = fill_@I@(registry, sink)
     return list(sink), alive, inside, len(registry)
 ''', 'finalizers_@I@(@A@)'),
+    ('lockstep', '''
+def ls_turn_@I@(ctl, me):
+    cv, turns, pos = ctl
+    with cv:
+        while pos[0] < len(turns) and turns[pos[0]] != me:
+            if not cv.wait(2.0):
+                break
+        pos[0] += 1
+        cv.notify_all()
+
+
+def ls_inner_@I@(ctl, me, n):
+    ls_turn_@I@(ctl, me)
+    return n * 2 + me
+
+
+def ls_job_@I@(ctl, me, n):
+    ls_turn_@I@(ctl, me)
+    first = ls_inner_@I@(ctl, me, n)
+    ls_turn_@I@(ctl, me)
+    second = ls_inner_@I@(ctl, me, n + 1)
+    ls_turn_@I@(ctl, me)
+    if (me + n) % 3 == 0:
+        raise HostError("job", me, n)
+    return first + second
+
+
+def ls_worker_@I@(ctl, me, sink):
+    for n in range(@B@):
+        try:
+            sink.append(ls_job_@I@(ctl, me, n))
+        except HostError as e:
+            sink.append("failed%d" % e.args[2])
+    return len(sink)
+
+
+def lockstep_@I@(seed):
+    count = 2 + seed % 2
+    left = [5 * @B@] * count
+    turns = []
+    x = seed * 7 + 3
+    while any(left):
+        x = (x * 1103515245 + 12345) % 2147483648
+        i = (x >> 8) % count
+        if left[i]:
+            left[i] -= 1
+            turns.append(i)
+    ctl = (threading.Condition(), turns, [0])
+    sinks = [[] for _ in range(count)]
+    ts = [threading.Thread(target=ls_worker_@I@, args=(ctl, i, sinks[i])) for i in range(count)]
+    for t in ts:
+        t.start()
+    for t in ts:
+        t.join()
+    return sinks
+''', 'lockstep_@I@(@A@ + 10 * @B@)'),
     ('method_exc', '''
 class Acct_@I@:
     def __init__(self, bal):
